@@ -25,8 +25,8 @@ CHECKS = {
    note="Trusts the crash classification by the Go runtime's own messages and the after-care baseline (same implementation, fresh object). Known finding (cyclic containers -> fatal stack overflow) is listed in known_findings.json by recursion signature; any other crash signature is reported.",
    tech="deterministic simulation with fault injection: seeded hostile workloads x injected panics/host faults/cancellation at chosen instants, process-isolated workers, fresh-object oracle"),
  "C08": dict(cat="exploration", ref="DESIGN.md 5.4",
-   text="K clones (and, separately, several threads on one object) are interleaved instruction by instruction and at lock sites by a seeded scheduler; every clone must return exactly what it returns alone on a separately compiled copy, untouched objects must stay unchanged, operations on one object must equal a serial witness in lock order, and the Go race detector - made independent of timing by hiding the simulator's own hand-offs and draining sync.Pools at every context switch - must report no conflicting unsynchronised accesses in tengo code. Sampling, not proof.",
-   note="Trusts the Go race detector's happens-before analysis (bounded shadow history), the separately compiled baseline, and the rule that the simulator never touches tengo memory from the controller. Two genuine races found on the pinned tree were repaired by fix: commits (recorded in known_findings.json as fixed).",
+   text="K clones (and, separately, several threads on one object) are interleaved instruction by instruction and at lock sites by a seeded scheduler; every clone must return exactly what it returns alone on a separately compiled copy, untouched objects must stay unchanged, operations on one object must equal a serial witness in lock order, and the Go race detector - made independent of timing by hiding the simulator's own hand-offs and draining sync.Pools at every context switch - must report no conflicting unsynchronised accesses in tengo code. Before and after the threads run, no two compiled objects may reach the same array, map or captured-variable cell. A second phase in the ordinary build lets pooled objects travel between threads (scheduling points inside format calls through host String methods, formatter failure paths taken, pools never emptied but made deterministic). Sampling, not proof.",
+   note="Trusts the Go race detector's happens-before analysis (bounded shadow history), the separately compiled baseline, and the rule that the simulator never touches tengo memory from the controller. Four genuine defects found on the pinned tree were repaired by fix: commits (recorded in known_findings.json as fixed); one (Clone shares the captured-variable cells of closures held in globals) is listed as a known finding by the class of the disjointness invariant.",
    tech="deterministic simulation: seeded interleaving of clone executions on real goroutines + happens-before race analysis with simulator hand-offs hidden; solo-run and serial-witness oracles"),
  "C06": dict(cat="fault_enumeration", ref="DESIGN.md 5.3",
    text="The allocation budget is the library's own allocation-failure injector: for every generated program the budget N is swept over every allocation index; relations between the runs are the oracle (limit error below the threshold, success with the unlimited run's globals at and above it, one more object-creating operation of each documented kind raises the threshold, k literal statements need a budget of at least k). String/bytes growers are run under a 4x4 grid of length maxima with every reachable String/Bytes measured after every run; recursion ladders are run around and beyond the frame and operand-stack capacity. Programs are sampled; the fault index space of each program is enumerated.",
